@@ -15,6 +15,7 @@ namespace {
 
 struct Case {
     std::vector<uint8_t> bytes;
+    int                  width{1};
     int                  deep{0}; // 0: generated tree; n > 0: parentheses nested (kDeepDepths[(n-1)/4]) deep in shape (n-1)%4
 };
 // around the widths a nesting counter can have (8 and 16 bits), and between
@@ -94,26 +95,46 @@ static const VarDef kVars[] = {
 };
 constexpr unsigned kNVars = sizeof(kVars) / sizeof(kVars[0]);
 
-void build_value(Value<char> &v) {
-    v["u5"]   = 5U;
-    v["u0"]   = 0U;
-    v["u12"]  = 12U;
-    v["i3"]   = -3;
-    v["i7"]   = 7;
-    v["r25"]  = 2.5;
-    v["r4"]   = 4.0;
-    v["rn"]   = -0.5;
-    v["s12"]  = "12";
-    v["sn3"]  = "-3";
-    v["s15"]  = "1.5";
-    v["bt"]   = true;
-    v["bf"]   = false;
-    v["nl"]   = nullptr;
-    v["txt"]  = "abc";
-    v["es"]   = "";
-    v["obj"]["x"] = 1;
-    v["txt2"] = "abc";
-    v["txt3"] = "true";
+template <typename Char_T>
+String<Char_T> wstr(const char *s) {
+    jm::Units u;
+    for (; *s; ++s) {
+        u.push_back((unsigned char)*s);
+    }
+    jm::Buf<Char_T> b(u);
+    return String<Char_T>{b.cp(), SizeT(b.n)};
+}
+template <typename Char_T>
+void build_value(Value<Char_T> &v) {
+    auto K = [](const char *s) { return wstr<Char_T>(s); };
+    v[K("u5")]   = 5U;
+    v[K("u0")]   = 0U;
+    v[K("u12")]  = 12U;
+    v[K("i3")]   = -3;
+    v[K("i7")]   = 7;
+    v[K("r25")]  = 2.5;
+    v[K("r4")]   = 4.0;
+    v[K("rn")]   = -0.5;
+    v[K("s12")]  = wstr<Char_T>("12");
+    v[K("sn3")]  = wstr<Char_T>("-3");
+    v[K("s15")]  = wstr<Char_T>("1.5");
+    v[K("bt")]   = true;
+    v[K("bf")]   = false;
+    v[K("nl")]   = nullptr;
+    v[K("txt")]  = wstr<Char_T>("abc");
+    v[K("es")]   = wstr<Char_T>("");
+    v[K("obj")][K("x")] = 1;
+    v[K("txt2")] = wstr<Char_T>("abc");
+    v[K("txt3")] = wstr<Char_T>("true");
+}
+template <typename Char_T>
+std::string narrow(const StringStream<Char_T> &ss) {
+    std::string o;
+    for (SizeT i = 0; i < ss.Length(); ++i) {
+        const uint32_t u = jm::unit_of(ss.First()[i]);
+        o.push_back(u < 0x80 ? char(u) : '?');
+    }
+    return o;
 }
 
 const VarDef *find_var(const std::string &n) {
@@ -601,10 +622,12 @@ struct H {
     static const char *name() { return "C04 expression evaluation"; }
     static rc::Gen<Case> gen() {
         using namespace rc;
-        return gen::map(gen::tuple(gen::resize(120, gen::container<std::vector<uint8_t>>(gen::arbitrary<uint8_t>())), pbt::range<int>(0, 40 * kDeepCount)),
-                        [](std::tuple<std::vector<uint8_t>, int> t) {
+        return gen::map(gen::tuple(gen::resize(120, gen::container<std::vector<uint8_t>>(gen::arbitrary<uint8_t>())), pbt::range<int>(0, 40 * kDeepCount),
+                                   pbt::pick<int>({1, 1, 1, 2, 4})),
+                        [](std::tuple<std::vector<uint8_t>, int, int> t) {
                             Case c;
                             c.bytes = std::get<0>(t);
+                            c.width = std::get<2>(t);
                             // one case in forty is a deep one
                             c.deep = (std::get<1>(t) % 40 == 0) ? 1 + (std::get<1>(t) / 40) % kDeepCount : 0;
                             return c;
@@ -613,6 +636,7 @@ struct H {
     // coverage-guided mode: the bytes are the entropy
     static bool from_fuzz(const uint8_t *d, size_t n, Case &c) {
         c.bytes.assign(d, d + n);
+        c.width = (n != 0 && d[n - 1] % 5 == 3) ? 2 : (n != 0 && d[n - 1] % 5 == 4) ? 4 : 1;
         return true;
     }
     static std::string to_text(const Case &c) {
@@ -625,6 +649,7 @@ struct H {
         }
         kv.put("bytes", hex);
         kv.put("deep", c.deep);
+        kv.put("width", c.width);
         std::string text;
         make_tree(c, text);
         kv.put("expr", pbt::enc_bytes(text.size() > 400 ? text.substr(0, 200) + "..." + text.substr(text.size() - 150) : text));
@@ -638,6 +663,7 @@ struct H {
             c.bytes.push_back(uint8_t(strtoul(hex.substr(i, 2).c_str(), nullptr, 16)));
         }
         c.deep = int(kv.geti("deep", 0));
+        c.width = int(kv.geti("width", 1));
         return c;
     }
 
@@ -669,12 +695,20 @@ struct H {
         ctx.label("pow-fractional-operand", fl.pow_fractional);
         ctx.label("division-by-zero", fl.div_zero);
         ctx.label("remainder-by-zero", fl.rem_zero);
+        switch (c.width) {
+            case 2: run_lib<char16_t>(ctx, text, fl, expect); break;
+            case 4: run_lib<char32_t>(ctx, text, fl, expect); break;
+            default: run_lib<char>(ctx, text, fl, expect); break;
+        }
+    }
 
-        using TC = TemplateCore<char, Value<char>, StringStream<char>>;
-        Value<char> value;
+    template <typename Char_T>
+    static void run_lib(pbt::Ctx &ctx, const std::string &text, const Flags &fl, const Num &expect) {
+        using TC = TemplateCore<Char_T, Value<Char_T>, StringStream<Char_T>>;
+        Value<Char_T> value;
         build_value(value);
         jm::Units       u(text.begin(), text.end());
-        jm::Buf<char>   buf(u);
+        jm::Buf<Char_T>   buf(u);
         QExpression     result;
         bool            ok;
         {
@@ -748,13 +782,13 @@ struct H {
         // rendered text of {math:...}: the value printed, or the tag reproduced verbatim
         std::string tpl = "{math:" + text + "}";
         jm::Units   tu(tpl.begin(), tpl.end());
-        jm::Buf<char> tb(tu);
-        StringStream<char> out;
+        jm::Buf<Char_T> tb(tu);
+        StringStream<Char_T> out;
         Template::Render(tb.cp(), SizeT(tb.n), value, out);
-        std::string got(out.First() ? out.First() : "", out.Length());
+        std::string got = narrow(out);
         std::string want;
         if (ok) {
-            StringStream<char> w;
+            StringStream<Char_T> w;
             using ET = QExpression::ExpressionType;
             if (result.Type == ET::NaturalNumber) {
                 Digit::NumberToString(w, result.Value.Number.Natural);
@@ -772,9 +806,9 @@ struct H {
                         s.pop_back();
                     }
                 }
-                w.Write(s.c_str(), SizeT(s.size()));
+                { String<Char_T> ws = wstr<Char_T>(s.c_str()); w.Write(ws.First(), ws.Length()); }
             }
-            want.assign(w.First() ? w.First() : "", w.Length());
+            want = narrow(w);
         } else {
             want = tpl;
         }
@@ -785,10 +819,10 @@ struct H {
         std::string itpl = "{if case=\"" + text + "\" true=\"T\" false=\"F\"}";
         if (text.find('"') == std::string::npos) {
             jm::Units          iu(itpl.begin(), itpl.end());
-            jm::Buf<char>      ib(iu);
-            StringStream<char> iout;
+            jm::Buf<Char_T>      ib(iu);
+            StringStream<Char_T> iout;
             Template::Render(ib.cp(), SizeT(ib.n), value, iout);
-            std::string ig(iout.First() ? iout.First() : "", iout.Length());
+            std::string ig = narrow(iout);
             std::string iw;
             if (ok) {
                 using ET = QExpression::ExpressionType;
@@ -805,10 +839,10 @@ struct H {
                 std::string bt = form;
                 bt.replace(bt.find("%s"), 2, text);
                 jm::Units          bu(bt.begin(), bt.end());
-                jm::Buf<char>      bb(bu);
-                StringStream<char> bout;
+                jm::Buf<Char_T>      bb(bu);
+                StringStream<Char_T> bout;
                 Template::Render(bb.cp(), SizeT(bb.n), value, bout);
-                std::string bg(bout.First() ? bout.First() : "", bout.Length());
+                std::string bg = narrow(bout);
                 std::string bw = (iw == "T") ? "T" : "F";
                 if (bg != bw) {
                     ctx.deviation(classify("block-if-text"), "<if> rendered '" + bg + "' expected '" + bw + "' for " + bt);
